@@ -51,7 +51,9 @@ RACE_LVSS = [H("races", "race_lvss", 2, 3, args=[4, 0, 0], **{"max-failures": 60
 
 # C18(b): the exprgen sweep contains any_sender_of as an adaptor at every position (differential against the same
 # reference model as the unwrapped tree); sch_any covers any_scheduler; strm_seq covers type_erased_stream
-CORO_RACE = [H("cororace", "coro_race_stop", 3, 4, args=list(a), **{"cache-bits": 24}) for a in ((0, 0, 0), (0, 1, 0), (0, 1, 1), (1, 0, 1), (1, 1, 1), (2, 1, 1), (2, 0, 0))]
+CORO_RACE = [H("cororace", "coro_race_stop", 3, 4, args=list(a), **{"cache-bits": 24}) for a in ((0, 0, 0), (0, 1, 0), (0, 1, 1), (1, 0, 1), (1, 1, 1), (2, 1, 1), (2, 0, 0))] + [
+    # the task's scheduler is an event loop run by two threads: completion of the task and the forwarded stop request on different threads
+    H("cororace", "coro_race_stop", 2, 3, args=[0, 2, 0], weight=4, **{"cache-bits": 24}), H("cororace", "coro_race_stop", 2, 3, args=[1, 2, 1], thorough_only=True, **{"cache-bits": 24})]
 CORO = [H("coro", "coro_return_throws")] + [H("coro", "coro_script", args=list(a)) for a in ((0, 0, 0), (0, 1, 0), (0, 0, 1), (0, 1, 1), (1, 0, 0), (1, 1, 0), (1, 0, 1))] + [
     H("coro", "coro_script", args=[2, 0, 0], thorough_only=True), H("coro", "coro_script", args=[1, 1, 1], thorough_only=True)]
 # C20: the same enumerations in trace mode (every case's canonical observation trace is its outcome), run in every build
@@ -96,7 +98,7 @@ CHECKS = {
     "C20": {"harnesses": C20_HARNESSES, "configs": {"quick": ["c17rel", "c20dbg", "c17dbgv", "c20relv"], "thorough": ALL_CONFIGS},
             "header_matrix": True, "deadline": {"quick": 600, "thorough": 4500}},
     "C19": {"harnesses": C19_HARNESSES},
-    "C10": {"harnesses": CORO + CORO_RACE},
+    "C10": {"harnesses": CORO + CORO_RACE, "deadline": {"quick": 420, "thorough": 2400}},
     "C11": {
         "harnesses": [
             H("traits", "traits_corpus"), H("traits", "ctx_throwing_value"),
@@ -152,7 +154,8 @@ CHECKS = {
     "C04": {"harnesses": EXPR_SEQ + RACES + RACE_LVSS + [
         H("cancel", "canc_stoponreq", 3, 4, args=[0]), H("cancel", "canc_stoponreq", 3, 4, args=[1]),
         H("cancel", "canc_generic", 3, 4, args=[0, 0, 0, 1]), H("cancel", "canc_detach", 3, 4, args=[0]),
-        H("futures", "fut_v2", 3, 4, args=[1, 0]), H("scopes", "scope_v1", 3, 4, args=[0, 2])],
+        H("futures", "fut_v2", 3, 4, args=[1, 0]), H("futures", "fut_v2", 3, 4, args=[0, 0]), H("futures", "fut_v2", 3, 4, args=[0, 2]),
+        H("scopes", "scope_v1", 3, 4, args=[0, 2])],
         "deadline": {"quick": 480, "thorough": 2400}},
     "C05": {"harnesses": [H("payload", "payload_adaptors")] + EXPR_SEQ + EXPR_SEQ_FAULTS + EXPR_CFAULT + EXPR_NX_Q + EXPR_NX_T, "deadline": {"quick": 420, "thorough": 2400}},
     "C12": {"harnesses": EXPR_SEQ_Q + EXPR_LVALUE_Q + EXPR_LVALUE_T + [H("expr", "expr_d2", args=[r, 0, 1], weight=6, thorough_only=True) for r in EXPR_D2_ROOTS if r >= 18], "deadline": {"quick": 420, "thorough": 2400}},
@@ -264,7 +267,7 @@ def tsan_items(items, q=1, t=2):
             continue
         seen.add(key)
         d = dict(h)
-        d.update({"flavour": "tsan", "quick": min(h.get("quick", 2), q), "thorough": min(h.get("thorough", 3), t), "weight": 0.4})
+        d.update({"flavour": "tsan", "quick": min(h.get("quick", 2), q), "thorough": min(h.get("thorough", 3), t), "weight": 0.4 * h.get("weight", 1.0)})
         out.append(d)
     return out
 
@@ -292,7 +295,7 @@ def tso_items(items, prop, q=2, t=3):
             continue
         seen.add(key)
         d = dict(h)
-        d.update({"tso": True, "quick": min(h.get("quick", 2), q), "thorough": min(h.get("thorough", 3), t), "weight": 0.5})
+        d.update({"tso": True, "quick": min(h.get("quick", 2), q), "thorough": min(h.get("thorough", 3), t), "weight": 0.5 * min(2.0, h.get("weight", 1.0))})
         d.setdefault("cache-bits", 24)
         if prop not in TSO_QUICK_PROPS or h["harness"] in TSO_THOROUGH_ONLY or (h["harness"] == "tim_three" and h.get("args") != [0, 0]):
             d["thorough_only"] = True
